@@ -855,7 +855,29 @@ func (fx *FnExec) execInstr(st *State, in ssa.Instruction) {
 		}
 	case *ssa.Next:
 		fx.execNext(st, in)
-	case *ssa.Go, *ssa.Send, *ssa.Select:
+	case *ssa.Send:
+		// channel contents are not modelled: a send has no effect on tracked state
+		fx.val(in.X)
+	case *ssa.Select:
+		// channels are not modelled: which case fires is arbitrary, received values are arbitrary
+		n := len(in.States)
+		idx := fx.sc.Fresh(in.Name()+"idx", SInt)
+		lo := TZero
+		if !in.Blocking {
+			lo = IntLit(-1)
+		}
+		fx.sc.Assume(And(App("<=", SBool, lo, idx), App("<", SBool, idx, IntLit(int64(n)))))
+		tup := []Term{idx, fx.sc.Fresh(in.Name()+"ok", SBool)}
+		for _, s := range in.States {
+			if s.Dir == types.RecvOnly {
+				et := s.Chan.Type().Underlying().(*types.Chan).Elem()
+				v := fx.sc.Fresh(in.Name()+"rv", fx.tc.SortOf(et))
+				fx.assumeValue(st, v, et)
+				tup = append(tup, v)
+			}
+		}
+		fx.tuples[in] = tup
+	case *ssa.Go:
 		unsupported("concurrency instruction %T in %s", in, fx.key)
 	default:
 		unsupported("instruction %T (%s) in %s", in, in, fx.key)
@@ -918,6 +940,16 @@ func (fx *FnExec) execUnOp(st *State, in *ssa.UnOp) {
 			fx.define(in, App("-", SInt, Term{hi, SInt}, x))
 		} else {
 			fx.define(in, App("-", SInt, App("-", SInt, x), IntLit(1)))
+		}
+	case token.ARROW:
+		// channel receive: contents are not modelled, the value is arbitrary
+		et := in.X.Type().Underlying().(*types.Chan).Elem()
+		v := fx.sc.Fresh(in.Name()+"recv", fx.tc.SortOf(et))
+		fx.assumeValue(st, v, et)
+		if in.CommaOk {
+			fx.tuples[in] = []Term{v, fx.sc.Fresh(in.Name()+"ok", SBool)}
+		} else {
+			fx.vals[in] = v
 		}
 	default:
 		unsupported("unary %s in %s", in.Op, fx.key)
